@@ -233,7 +233,7 @@ pub fn subs() -> Vec<Box<dyn Sub>> {
             rule: "new_boxed::<T>(header, slices) for T in {DynSizedStructure<DummyTestHeader>, DummyDstTag, DynSizedStructure<TagHeader>, DynSizedStructure<HeaderTagHeader>} under a recording global allocator. Enumerated completely: every composition of total length 0..=12 (thorough 17) into 0..=4 slices (empty slices allowed) x 4 targets; generated: up to 6 slices of up to 60 random bytes. Oracle: exactly one alloc(size = r8(header + sum), align 8) whose pointer is the Box; header size word == header + sum; bytes after the header == concatenation; size_of_val == r8(total); clone_dyn equal up to the size with one allocation of the same layout; drop = exactly one dealloc with the same pointer and layout (for the box and for the clone). Non-trivial = total not a multiple of 8, an empty slice, or >=3 slices; distinct by (target, slices)",
             profiles: Profiles::Both,
             quick: 30000,
-            thorough: 500000,
+            thorough: 2000000,
             strategy,
             enumerate: Some(enumerate),
             enum_exhaustive: false,
@@ -244,7 +244,7 @@ pub fn subs() -> Vec<Box<dyn Sub>> {
             rule: "clone_dyn of every dynamically sized tag kind of both crates built by its public constructor: enumerated content lengths 0..=40 (every padding residue) x 11 kinds; generated lengths up to 300. Oracle: same declared size, same bytes up to that size. Non-trivial = declared size not a multiple of 8; distinct by (kind, length)",
             profiles: Profiles::Both,
             quick: 10000,
-            thorough: 200000,
+            thorough: 1000000,
             strategy: strategy_clone,
             enumerate: Some(enumerate_clone),
             enum_exhaustive: false,
